@@ -85,7 +85,8 @@ HopFails(e) ==
      THEN RDClause("C14", "a missing, non-textual or unresolvable Location must be reported as an error",
                    e.res = "err" \/ (e.res = "none" /\ nm = "NotFollowed"))
      ELSE
-          RDClause("C15", "redirect not followed although the method table says it is",
+          RDClause("C14", "a Location that resolves (empty, relative, absolute ...) was reported as an error", e.res # "err")
+     \cup RDClause("C15", "redirect not followed although the method table says it is",
                    nm # "NotFollowed" => e.res = "flow")
      \cup RDClause("C15", "307/308 with a body-carrying method or DELETE must not be followed",
                    nm = "NotFollowed" => e.res = "none")
